@@ -395,6 +395,29 @@ func Main(t *testing.T, engines map[string]*Engine) {
 			fmt.Println("  | " + l)
 		}
 		fmt.Printf("run %d: violations=%v herr=%v tape=%d hash=%x\n", run, c.Violations, err, len(c.Tape.Used), c.hash)
+		if os.Getenv("VERIF_ONLY_RUN_TWICE") != "" {
+			c2 := newCtx(prop, tier, seed, run, newReplayTape(c.Tape.Used), true)
+			execute(t, e, c2)
+			fmt.Printf("replay in the same process: hash=%x\n", c2.hash)
+			for i := 0; i < len(c.Trace) || i < len(c2.Trace); i++ {
+				var x, y string
+				if i < len(c.Trace) {
+					x = c.Trace[i]
+				}
+				if i < len(c2.Trace) {
+					y = c2.Trace[i]
+				}
+				if x != y {
+					fmt.Printf("first divergence at log line %d:\n  gen:    %s\n  replay: %s\n", i, x, y)
+					for j := i - 3; j < i+8; j++ {
+						if j >= 0 && j < len(c2.Trace) {
+							fmt.Printf("  replay[%d]: %s\n", j, c2.Trace[j])
+						}
+					}
+					break
+				}
+			}
+		}
 		os.Exit(0)
 	}
 
